@@ -368,7 +368,8 @@ class Verdict:
 # ----------------------------------------------------------------------------- evidence
 
 def write_evidence(pid, tier, level, coverage, assumptions, wall_s, violations):
-    os.makedirs(os.path.join(VERIF, "evidence"), exist_ok=True)
+    evdir = os.environ.get("VERIF_EVIDENCE_DIR", os.path.join(VERIF, "evidence"))  # scratch dir when testing seeded changes
+    os.makedirs(evdir, exist_ok=True)
     ev = {
         "property_id": pid,
         "tier": tier,
@@ -379,7 +380,7 @@ def write_evidence(pid, tier, level, coverage, assumptions, wall_s, violations):
         "wall_s": round(wall_s, 2),
         "violations": violations,
     }
-    path = os.path.join(VERIF, "evidence", pid + ".json")
+    path = os.path.join(evdir, pid + ".json")
     tmp = path + ".tmp"
     with open(tmp, "w") as f:
         json.dump(ev, f, indent=1, sort_keys=True)
